@@ -847,10 +847,22 @@ static char **regstartp;	/* Pointer to startp array. */
 static char **regendp;		/* Ditto for endp. */
 
 /*
+ * regmatch() calls itself once for every alternative, parenthesis and every round of a
+ * general x* or x+ that is tried: on a long subject the nesting grows with the length
+ * of the subject, not of the expression.  It is cut off well before the C stack is used
+ * up; the match is then given up as a whole (regexec() returns 0 with regexp_too_deep
+ * set, the efuns turn that into an error).
+ */
+#define REGMATCH_MAX_DEPTH	20000
+static int regdepth;		/* regmatch() calls in progress. */
+int regexp_too_deep;		/* The last regexec() was given up. */
+
+/*
  * Forwards.
  */
 static int regtry (regexp *, char *);
 static int regmatch (char *);
+static int regmatch_1 (char *);
 static int regrepeat (char *);
 
 /*
@@ -888,31 +900,44 @@ regexec (register regexp * prog, register char *string)
     }
   /* Mark beginning of line for ^ . */
   regbol = string;
+  regdepth = 0;
+  regexp_too_deep = 0;
 
   /* Simplest case:  anchored match need be tried only once. */
   if (prog->reganch)
-    return (regtry (prog, string));
-
-  /* Messy cases:  unanchored match. */
-  s = string;
-  if (prog->regstart != '\0')
-    /* We know what char it must start with. */
-    while ((s = strchr (s, prog->regstart)) != (char *) NULL)
-      {
-        if (regtry (prog, s))
-          return (1);
-        s++;
-      }
+    {
+      if (regtry (prog, string))
+        return (1);
+    }
   else
-    /* We don't -- general case. */
-    do
-      {
-        if (regtry (prog, s))
-          return (1);
-      }
-    while (*s++ != '\0');
+    {
+      /* Messy cases:  unanchored match. */
+      s = string;
+      if (prog->regstart != '\0')
+        /* We know what char it must start with. */
+        while ((s = strchr (s, prog->regstart)) != (char *) NULL)
+          {
+            if (regtry (prog, s))
+              return (1);
+            if (regexp_too_deep)
+              break;
+            s++;
+          }
+      else
+        /* We don't -- general case. */
+        do
+          {
+            if (regtry (prog, s))
+              return (1);
+            if (regexp_too_deep)
+              break;
+          }
+        while (*s++ != '\0');
+    }
 
   /* Failure. */
+  if (regexp_too_deep)
+    regerror ("regular expression too complex for this string (nesting too deep)\n");
   return (0);
 }
 
@@ -959,6 +984,25 @@ regtry (regexp * prog, char *string)
  */
 static int
 regmatch (char *prog)
+{
+  int ret;
+
+  /* once the limit was hit every call fails, so that the whole attempt unwinds quickly */
+  if (regexp_too_deep)
+    return (0);
+  if (regdepth >= REGMATCH_MAX_DEPTH)
+    {
+      regexp_too_deep = 1;
+      return (0);
+    }
+  regdepth++;
+  ret = regmatch_1 (prog);
+  regdepth--;
+  return regexp_too_deep ? 0 : ret;
+}
+
+static int
+regmatch_1 (char *prog)
 {
   register char *scan;		/* Current node. */
   char *nxt;			/* nxt node. */
